@@ -57,13 +57,22 @@ def _site(repo, caller, node, callee, is_ctor):
     binding = {}
     star = False
     old = getattr(callee, 'old_name', lambda x: x)        # renamed parameters keep the name the rules use
-    for i, a in enumerate(node.args):
+    args, keywords = list(node.args), list(node.keywords)
+    if isinstance(node.func, ast.Name):
+        # name = functools.partial(f, *a, **k); name(*b, **m)  binds like  f(*a, *b, **k, **m)
+        defs = [n for n in ast.walk(caller.node) if isinstance(n, ast.Assign) and len(n.targets) == 1
+                and isinstance(n.targets[0], ast.Name) and n.targets[0].id == node.func.id]
+        if len(defs) == 1 and isinstance(defs[0].value, ast.Call) and (dotted(defs[0].value.func) or '').split('.')[-1] == 'partial' \
+                and defs[0].value.args:
+            args = list(defs[0].value.args[1:]) + args
+            keywords = list(defs[0].value.keywords) + keywords
+    for i, a in enumerate(args):
         if isinstance(a, ast.Starred):
             star = True
             break
         if i < len(pos):
             binding[old(pos[i])] = a
-    for k in node.keywords:
+    for k in keywords:
         if k.arg is None:
             star = True
         else:
